@@ -92,7 +92,7 @@ class CfgInterp:
                 v = f.deref(v)
                 if v is None or v["k"] != "var":
                     continue
-                name = v.get("name") or f.text(v).split("=")[0].split()[-1]
+                name = v.get("n") or v.get("name") or f.text(v).split("=")[0].split()[-1]
                 init = v["c"][-1] if v.get("c") else None
                 if init is None:
                     env[name] = None
